@@ -31,7 +31,12 @@ MutEvents(acts, vals) ==
              [] a \in {"Remove", "RemoveKeepTree", "RemoveChildren", "ViewRemove"} -> {[a |-> a, p |-> p] : p \in ZPfxs}
              [] a = "ViewSet" -> {[a |-> a, p |-> p, v |-> v] : p \in ZPfxs, v \in vals}
            : a \in acts}
-PairEvs == UNION {IF a = "Eq" THEN {[a |-> a]} ELSE {[a |-> a, qa |-> qa, qb |-> qb] : qa \in ZPfxs, qb \in ZPfxs}
+PairEvs == UNION {IF a = "Eq" THEN {[a |-> a]}
+                  ELSE IF a = "PairWrite"
+                  THEN {[a |-> a, op |-> o, qa |-> qa, qb |-> qb, k |-> k] :
+                           o \in {"UnionMut", "InterMut", "DiffMut", "CovDiffMut"}, qa \in ZPfxs, qb \in ZPfxs,
+                           k \in 0..2}
+                  ELSE {[a |-> a, qa |-> qa, qb |-> qb] : qa \in ZPfxs, qb \in ZPfxs}
                   : a \in PairActs}
 
 Init == /\ mA = EmptyMap /\ mB = EmptyMap /\ absA = {} /\ absB = {}
@@ -61,7 +66,9 @@ Bound == /\ Cardinality(absA) <= MaxCountA /\ Cardinality(absB) <= MaxCountB
 InvRefines == Entries(mA) = absA /\ Entries(mB) = absB
 InvWF == WF(mA) /\ WF(mB)
 \* C05 - C08, C19: every pair observation agrees with its abstract definition
-StepPairOK == ev'.a \in PairObservers => PairObserveOK(absA, absB, ev', ret')
+StepPairOK == ev'.a \in PairObservers =>
+                 /\ PairObserveOK(absA, absB, ev', ret')
+                 /\ ev'.a = "PairWrite" => PairWriteOK(absA, absB, mA, mB, ev', ret')
 PropPair == [][StepPairOK]_vars
 
 StateRow == [s |-> <<histA, histB>>, fa |-> Tree(mA), fb |-> Tree(mB)]
